@@ -1099,6 +1099,21 @@ def c04(tier, seed):
             if tier == "quick" and form % 2 and dname not in ("b200", "b128"):
                 continue
             out.append(layout_enum(c.pid(), sh, dname, repr_, "both" if form % 2 == 0 else "po"))
+    # (A4) more variants than a signed one-byte tag can number: the inferred discriminant type has to widen by COUNT
+    # (130 variants: 0..=129 leaves i8; starting at -3 it still fits; starting at 100 it leaves u8 as well)
+    for start, repr_, md in ((None, None, "both"), (-3, "i16", "po"), (100, "u16", "both")):
+        if tier == "quick" and start is not None:
+            continue
+        vs = []
+        for i in range(130):
+            d = start if i == 0 else None
+            if i in (0, 129):
+                vs.append(Variant("V%d" % i, "tuple", [Field(None, "u8", ord={})], discr=d))
+            else:
+                vs.append(Variant("V%d" % i, "unit", [], discr=d))
+        P = ord_program(c.pid(), "enum", "E", vs, md, [], 0, "layout enum with 130 variants first=%s repr=%s mode=%s" % (start, repr_, md), prop="C04", repr_=repr_)
+        P.tags["no_verus"] = "130 x 130 case split: decided by Kani (loop-free, full domain)"
+        out.append(P)
     # (B) concrete payload grid (Kani, real layouts)
     pls = ["u8", "bool", "char", "ref", "nz", "opt", "nest", "unit", "zst", "u32"]
     grid = []
